@@ -124,7 +124,7 @@ func Pred() *rapid.Generator[model.PredSpec] {
 
 var intPool = []int64{0, 1, -1, 2, 10, -10, 1 << 55, -(1 << 55), 1<<55 - 1, -(1<<55 - 1), math.MaxInt64, math.MinInt64, 1 << 62, 1<<63 - 2, 116, 1702195828}
 var floatPool = []float64{0, math.Copysign(0, -1), 1, -1, 0.5, 1.5, -2.25, math.Inf(1), math.Inf(-1), math.SmallestNonzeroFloat64, 1e300, -1e300, 1.0000001, 1.0000002, 1e33, math.MaxFloat64, 2.2250738585072014e-308, 1e-7}
-var textPool = []string{"", "a", "true", "1", "1.0", "x y", "[1] \"A temporal graph store\", 2015", "x] /y", "a> \"b", "] \"", "see [2]\t/t<a>", "\"", "a\"b", "\"^^type:text", "\"^^type:int64", "x\"^^type:bool", "\"@[", "]", "[1 2]", "\\", "a\\", "é", "世界", " lead", "trail ", "a\tb", "<x>", "/t<a>", "_:b", "?x", "NaN"}
+var textPool = []string{"", "a", "true", "1", "1.0", "x y", "100% sure", "%d", "a%%b", "%s%v%!", "%", "[1] \"A temporal graph store\", 2015", "x] /y", "a> \"b", "] \"", "see [2]\t/t<a>", "\"", "a\"b", "\"^^type:text", "\"^^type:int64", "x\"^^type:bool", "\"@[", "]", "[1 2]", "\\", "a\\", "é", "世界", " lead", "trail ", "a\tb", "<x>", "/t<a>", "_:b", "?x", "NaN"}
 var blobPool = [][]byte{{}, {0}, {116, 114, 117, 101}, {255}, {1, 2, 3}, {34, 94, 94}, {32}}
 
 // Lit draws a literal spec. NaN is produced only when allowNaN is set.
@@ -169,7 +169,7 @@ func Text() *rapid.Generator[string] {
 		if rapid.IntRange(0, 9).Draw(t, "tpool") < 6 {
 			return rapid.SampledFrom(textPool).Draw(t, "text")
 		}
-		s := rapid.StringMatching(`[a-zA-Z0-9 _\-\./@\[\]"^:\\é世,;?<>'\t]{0,8}`).Draw(t, "textr")
+		s := rapid.StringMatching(`[a-zA-Z0-9 _\-\./@\[\]"^:\\é世,;?<>'\t%{}$#&|~]{0,8}`).Draw(t, "textr")
 		if !utf8.ValidString(s) {
 			return "x"
 		}
